@@ -57,4 +57,7 @@ NormCrDoc(v) ==
   ELSE v
 Export == PrintT(<<"GEN", ToJson([root |-> root, opt |-> opt, exp |-> Exec(Doc, root, RtPol), expsave |-> "ok",
                                  expdev |-> IF NormCrDoc(Doc) = Doc THEN <<>> ELSE <<[dev |-> "Dev_XmlCrNotEscaped", exp |-> Exec(NormCrDoc(Doc), root, RtPol)]>>])>>)
+ExportWide == \A wt \in WideTypes : WideRoot(root, wt) = root \/
+                 PrintT(<<"GEN", ToJson([root |-> WideRoot(root, wt), opt |-> opt, exp |-> Exec(Doc, root, RtPol), expsave |-> "ok",
+                                 expdev |-> IF NormCrDoc(Doc) = Doc THEN <<>> ELSE <<[dev |-> "Dev_XmlCrNotEscaped", exp |-> Exec(NormCrDoc(Doc), root, RtPol)]>>])>>)
 =============================================================================
